@@ -242,6 +242,229 @@ def bind_args(call: ast.Call, fn: ast.FunctionDef, is_method: bool) -> T.Dict[st
     return out
 
 
+def _stable(e: ast.AST) -> bool:
+    """An expression that may be written twice without changing anything: a name, an attribute chain, a constant."""
+    return isinstance(e, ast.Constant) or attr_chain(e) is not None
+
+
+def _aug_targets_to_load(root: ast.AST, names: T.Optional[T.Set[str]] = None) -> T.Set[str]:
+    """`p += v` on a bare name: the target is made substitutable (it stands for the object `p` names, extended in place)."""
+    seen: T.Set[str] = set()
+    for n in ast.walk(root):
+        if isinstance(n, ast.AugAssign) and isinstance(n.target, ast.Name) and isinstance(n.op, ast.Add) and (names is None or n.target.id in names):
+            seen.add(n.target.id)
+            n.target = ast.Name(id=n.target.id, ctx=ast.Load())
+    return seen
+
+
+def _aug_targets_to_store(root: ast.AST) -> bool:
+    ok = True
+    for n in ast.walk(root):
+        if isinstance(n, ast.AugAssign) and isinstance(getattr(n.target, 'ctx', None), ast.Load):
+            if isinstance(n.target, (ast.Name, ast.Attribute, ast.Subscript)):
+                n.target.ctx = ast.Store()
+            else:
+                ok = False
+    return ok
+
+
+def _relocate(nodes: T.List[ast.AST], at: ast.AST) -> None:
+    for st in nodes:
+        for n in ast.walk(st):
+            if hasattr(n, 'lineno') or isinstance(n, (ast.stmt, ast.expr)):
+                ast.copy_location(n, at)
+
+
+def inline_effect_helpers(mod: Module, fn: ast.FunctionDef, cls: T.Optional[str], rounds: int = 2) -> ast.FunctionDef:
+    """Source-to-source normal form for 'extract method' of an *effect* (refactoring kinds E1/E3): a statement that is only a call
+    of a small procedure of the same module / class / function (no value returned, no early exit, straight parameters) is replaced
+    by the procedure's body with the parameters substituted by the argument expressions (which must be names, attribute chains or
+    constants, so writing them several times changes nothing).  Locals of the procedure are renamed apart.  `p += [..]` on a
+    parameter is the in-place extension of the argument.  Anything else is left as the call it is."""
+    def eligible(h: ast.AST) -> bool:
+        if not isinstance(h, ast.FunctionDef) or h is fn or len(h.body) > 10:
+            return False
+        if any(norm(d) != 'staticmethod' for d in h.decorator_list) or h.args.vararg or h.args.kwarg:
+            return False
+        params = {a.arg for a in h.args.posonlyargs + h.args.args + h.args.kwonlyargs}
+        for n in ast.walk(h):
+            if n is h:
+                continue
+            if isinstance(n, (ast.Return, ast.Yield, ast.YieldFrom, ast.FunctionDef, ast.AsyncFunctionDef, ast.Lambda, ast.Global, ast.Nonlocal, ast.ClassDef, ast.Await)):
+                return False
+            if isinstance(n, ast.Name) and isinstance(n.ctx, (ast.Store, ast.Del)) and n.id in params:
+                return False
+        return True
+
+    class Inl(ast.NodeTransformer):
+        changed = False
+        sites = 0
+
+        def __init__(self, nested: T.Dict[str, ast.FunctionDef]):
+            self.nested = nested
+
+        def visit_Expr(self, st: ast.Expr) -> T.Any:
+            c = st.value
+            if not isinstance(c, ast.Call):
+                return st
+            cn = attr_chain(c.func) or ''
+            parts = cn.split('.')
+            h: T.Any = None
+            is_method = False
+            if len(parts) == 1 and parts[0] in self.nested:
+                h = self.nested[parts[0]]
+            elif len(parts) == 1 and parts[0] and mod.has_func(parts[0]):
+                h = mod.func(parts[0])
+            elif len(parts) == 2 and cls and parts[0] in ('self', 'cls') and mod.has_func(f'{cls}.{parts[1]}'):
+                h, is_method = mod.func(f'{cls}.{parts[1]}'), True
+            if h is None:
+                return st
+            # `p += [x]` on a parameter: in-place extension of the argument (the re-binding of the local is the same object)
+            hh = copy.deepcopy(h)
+            aug_params = _aug_targets_to_load(hh)      # substituted below, turned back into targets
+            if not eligible(hh):
+                return st
+            b = bind_args(c, hh, is_method)
+            hp = [a.arg for a in hh.args.posonlyargs + hh.args.args + hh.args.kwonlyargs if a.arg not in ('self', 'cls')]
+            if set(hp) - set(b) or not all(_stable(v) for v in b.values()) or any(isinstance(a, ast.Starred) for a in c.args) or any(k.arg is None for k in c.keywords):
+                return st
+            if any(p in aug_params and attr_chain(b[p]) is None for p in hp):
+                return st
+            local = {n.id for n in ast.walk(hh) if isinstance(n, ast.Name) and isinstance(n.ctx, ast.Store)}
+            Inl.sites += 1          # renamed apart per call site: a condition named inside the procedure keeps a single definition
+            ren = {n: f'_{hh.name.strip("_")}{Inl.sites}_{n}' for n in local}
+            for n in ast.walk(hh):
+                if isinstance(n, ast.Name) and n.id in ren:
+                    n.id = ren[n.id]
+            body = [s for s in hh.body if not (isinstance(s, ast.Expr) and isinstance(s.value, ast.Constant))]
+            body = [_Subst(dict(b)).visit(s) for s in body]
+            for s in body:
+                _aug_targets_to_store(s)
+            if not body:
+                body = [ast.Pass()]
+            _relocate(body, st)
+            Inl.changed = True
+            return body
+
+    out = fn
+    for _ in range(rounds):
+        nested = {n.name: n for n in ast.walk(out) if isinstance(n, ast.FunctionDef) and n is not out}
+        names = {(attr_chain(s.value.func) or '').split('.')[-1] for s in ast.walk(out) if isinstance(s, ast.Expr) and isinstance(s.value, ast.Call)}
+        if not any(nm in nested or mod.has_func(nm) or (cls and mod.has_func(f'{cls}.{nm}')) for nm in names if nm):
+            break
+        Inl.changed = False
+        new = Inl(nested).visit(copy.deepcopy(out))
+        if not Inl.changed:
+            break
+        out = ast.fix_missing_locations(new)
+    return T.cast(ast.FunctionDef, out)
+
+
+def unroll_constant_loops(fn: ast.FunctionDef) -> ast.FunctionDef:
+    """Source-to-source normal form for refactoring kind A4 (a fixed sequence of statements <-> a loop over a constant tuple of
+    callables / records): `for v in (e1, .., en): BODY` (the tuple written in place or bound once to a local that is used nowhere
+    else) becomes BODY[v:=e1]; ..; BODY[v:=en] when every ei is a lambda, a name, an attribute chain or a constant (or a tuple of
+    these, unpacked by a tuple target), the body neither re-binds v nor leaves the loop early; an immediately applied lambda is
+    beta-reduced when its arguments are names/attribute chains/constants and none of its free names is bound in the body."""
+    def display_of(e: ast.AST, scope: ast.AST) -> T.Optional[T.List[ast.AST]]:
+        if isinstance(e, (ast.Tuple, ast.List)):
+            return list(e.elts)
+        if isinstance(e, ast.Name):
+            defs = [n for n in ast.walk(scope) if isinstance(n, (ast.Assign, ast.AnnAssign, ast.AugAssign, ast.For, ast.NamedExpr, ast.comprehension, ast.With))
+                    and any(isinstance(x, ast.Name) and x.id == e.id and isinstance(x.ctx, ast.Store)
+                            for t in (n.targets if isinstance(n, ast.Assign) else [getattr(n, 'target', None)] if not isinstance(n, ast.With) else [i.optional_vars for i in n.items])
+                            if t is not None for x in ast.walk(t))]
+            uses = [x for x in ast.walk(scope) if isinstance(x, ast.Name) and x.id == e.id]
+            if len(defs) == 1 and isinstance(defs[0], (ast.Assign, ast.AnnAssign)) and defs[0].value is not None and len(uses) == 2 \
+                    and isinstance(defs[0].value, (ast.Tuple, ast.List)) and isinstance(defs[0].targets[0] if isinstance(defs[0], ast.Assign) else defs[0].target, ast.Name):
+                return list(defs[0].value.elts)
+        return None
+
+    def elem_ok(e: ast.AST) -> bool:
+        return isinstance(e, ast.Lambda) or _stable(e)
+
+    class Beta(ast.NodeTransformer):
+        def __init__(self, bound: T.Set[str]):
+            self.bound = bound
+
+        def visit_Call(self, c: ast.Call) -> ast.AST:
+            self.generic_visit(c)
+            f = c.func
+            if isinstance(f, ast.Lambda) and not c.keywords and not f.args.vararg and not f.args.kwarg and not f.args.kwonlyargs and not f.args.defaults \
+                    and len(c.args) == len(f.args.posonlyargs + f.args.args) and all(_stable(a) for a in c.args):
+                ps = [a.arg for a in f.args.posonlyargs + f.args.args]
+                free = {n.id for n in ast.walk(f.body) if isinstance(n, ast.Name)} - set(ps)
+                inner_bound = {n.id for n in ast.walk(f.body) if isinstance(n, ast.Name) and isinstance(n.ctx, ast.Store)}
+                arg_names = {n.id for a in c.args for n in ast.walk(a) if isinstance(n, ast.Name)}
+                if not (free & self.bound) and not (inner_bound & arg_names):
+                    return ast.copy_location(_Subst(dict(zip(ps, c.args))).visit(copy.deepcopy(f.body)), c)
+            return c
+
+    class Un(ast.NodeTransformer):
+        changed = False
+
+        def __init__(self, scope: ast.AST):
+            self.scope = scope
+
+        def visit_For(self, loop: ast.For) -> T.Any:
+            self.generic_visit(loop)
+            elts = display_of(loop.iter, self.scope)
+            if elts is None or loop.orelse or not elts or len(elts) > 12 or any(isinstance(x, ast.Starred) for x in elts):
+                return loop
+            tg = loop.target
+            names = [tg.id] if isinstance(tg, ast.Name) else [x.id for x in tg.elts if isinstance(x, ast.Name)] if isinstance(tg, ast.Tuple) else []
+            if not names or (isinstance(tg, ast.Tuple) and len(names) != len(tg.elts)):
+                return loop
+            body0 = [copy.deepcopy(s) for s in loop.body]
+            aug = set()
+            for s in body0:
+                aug |= _aug_targets_to_load(s, set(names))       # `v += [..]` extends the element in place
+            inside = [n for s in body0 for n in ast.walk(s)]
+            if any(isinstance(n, (ast.Break, ast.Continue, ast.FunctionDef, ast.AsyncFunctionDef, ast.Lambda, ast.Yield, ast.YieldFrom)) for n in inside):
+                return loop      # early exits of the loop / closures that would see the loop variable late
+            if any(isinstance(n, ast.Name) and n.id in names and isinstance(n.ctx, (ast.Store, ast.Del)) for n in inside):
+                return loop
+            bound = {n.id for n in inside if isinstance(n, ast.Name) and isinstance(n.ctx, ast.Store)}
+            out: T.List[ast.AST] = []
+            for el in elts:
+                if isinstance(tg, ast.Name):
+                    if not elem_ok(el):
+                        return loop
+                    env = {tg.id: el}
+                else:
+                    if not (isinstance(el, ast.Tuple) and len(el.elts) == len(names) and all(elem_ok(x) for x in el.elts)):
+                        return loop
+                    env = dict(zip(names, el.elts))
+                if any(attr_chain(env[a]) is None for a in aug):
+                    return loop
+                for s in body0:
+                    s2 = _Subst(env).visit(copy.deepcopy(s))
+                    _aug_targets_to_store(s2)
+                    out.append(Beta(bound).visit(s2))
+            Un.changed = True
+            return out
+
+    if not any(isinstance(n, ast.For) and (isinstance(n.iter, (ast.Tuple, ast.List, ast.Name))) for n in ast.walk(fn)):
+        return fn
+    Un.changed = False
+    new = Un(fn).visit(copy.deepcopy(fn))
+    if not Un.changed:
+        return fn
+    return T.cast(ast.FunctionDef, ast.fix_missing_locations(new))
+
+
+def nf_func(mod: Module, qn: str) -> ast.FunctionDef:
+    """mod.func(qn) in effect normal form (the class is the qualifier of qn when it names one)."""
+    fn = mod.func(qn)
+    cls = qn.rsplit('.', 1)[0] if '.' in qn and mod.has_cls(qn.rsplit('.', 1)[0]) else None
+    return effect_normal_form(mod, T.cast(ast.FunctionDef, fn), cls) if isinstance(fn, ast.FunctionDef) else fn  # type: ignore[return-value]
+
+
+def effect_normal_form(mod: Module, fn: ast.FunctionDef, cls: T.Optional[str]) -> ast.FunctionDef:
+    """The function as the bookkeeping rules read it: effect helpers inlined, loops over constant tuples of callables unrolled."""
+    return unroll_constant_loops(inline_effect_helpers(mod, fn, cls))
+
+
 def const_values_tested(test: ast.AST, var: str, mod: T.Optional[Module] = None) -> T.Optional[T.Set[T.Any]]:
     """The constants `var` is compared with when `test` holds: `var == c`, `c == var`, `var in {..}`, `var == a or var == b`."""
     if isinstance(test, ast.BoolOp) and isinstance(test.op, ast.Or):
@@ -283,9 +506,93 @@ def _lexer_table(mod: Module, attr: str) -> ast.AST:
     for n in walk_no_nested(fn):
         if isinstance(n, ast.Assign) and len(n.targets) == 1 and attr_chain(n.targets[0]) == f'self.{attr}':
             found = n.value
+        elif isinstance(n, ast.AnnAssign) and attr_chain(n.target) == f'self.{attr}' and n.value is not None:
+            found = n.value
+    if found is None and mod.has_assign(attr, mod.cls('Lexer')):
+        found = mod.assign_value(attr, mod.cls('Lexer'))          # a class-level table read through self
     if found is None:
         raise Undecided(f'Lexer.__init__ does not assign self.{attr}')
     return found
+
+
+def _single_return(h: ast.AST) -> T.Optional[ast.AST]:
+    body = [st for st in getattr(h, 'body', []) if not (isinstance(st, ast.Expr) and isinstance(st.value, ast.Constant))]
+    if len(body) == 1 and isinstance(body[0], ast.Return) and body[0].value is not None:
+        return body[0].value
+    return None
+
+
+def sequence_elements(mod: Module, e: ast.AST, cls: T.Optional[str] = None, depth: int = 0) -> T.List[ast.AST]:
+    """The element expressions of a *constant-shaped* sequence, however it is put together (closed-world reading of a table):
+    a list/tuple display with `*` splices, `a + b`, `list(x)` / `tuple(x)` / `x.copy()` / `x[:]`, the name of a module- or
+    class-level constant, or a call of a module-level function / method of `cls` that is a single `return <sequence>` (its
+    parameters are substituted by the call's arguments).  Nothing is evaluated; anything else is Undecided."""
+    if depth > 6:
+        raise Undecided(f'table {short(e)} is nested too deeply to be read')
+    if isinstance(e, (ast.List, ast.Tuple)):
+        out: T.List[ast.AST] = []
+        for x in e.elts:
+            out += sequence_elements(mod, x.value, cls, depth + 1) if isinstance(x, ast.Starred) else [x]
+        return out
+    if isinstance(e, ast.BinOp) and isinstance(e.op, ast.Add):
+        return sequence_elements(mod, e.left, cls, depth + 1) + sequence_elements(mod, e.right, cls, depth + 1)
+    if isinstance(e, ast.Call) and norm(e.func) in ('list', 'tuple') and len(e.args) == 1 and not e.keywords:
+        return sequence_elements(mod, e.args[0], cls, depth + 1)
+    if isinstance(e, ast.Call) and isinstance(e.func, ast.Attribute) and e.func.attr == 'copy' and not e.args:
+        return sequence_elements(mod, e.func.value, cls, depth + 1)
+    if isinstance(e, ast.Subscript) and isinstance(e.slice, ast.Slice) and e.slice.lower is None and e.slice.upper is None and e.slice.step is None:
+        return sequence_elements(mod, e.value, cls, depth + 1)
+    e = _strip_cast(e) if isinstance(e, ast.Call) and attr_chain(e.func) in ('T.cast', 'typing.cast', 'cast') else e
+    if isinstance(e, ast.Name) and mod.has_assign(e.id):
+        return sequence_elements(mod, mod.assign_value(e.id), cls, depth + 1)
+    ch = attr_chain(e) or ''
+    if cls and ch.count('.') == 1 and ch.split('.')[0] in ('self', 'cls', cls) and mod.has_assign(ch.split('.')[1], mod.cls(cls)):
+        return sequence_elements(mod, mod.assign_value(ch.split('.')[1], mod.cls(cls)), cls, depth + 1)
+    if isinstance(e, ast.Call):
+        cn = attr_chain(e.func) or ''
+        parts = cn.split('.')
+        q = None
+        if len(parts) == 1 and mod.has_func(parts[0]):
+            q = parts[0]
+        elif cls and len(parts) == 2 and parts[0] in ('self', 'cls', cls) and mod.has_func(f'{cls}.{parts[1]}'):
+            q = f'{cls}.{parts[1]}'
+        if q is not None:
+            h = mod.func(q)
+            rv = _single_return(h)
+            if rv is not None and isinstance(h, ast.FunctionDef):
+                b = bind_args(e, h, '.' in q)
+                hp = [a.arg for a in h.args.args + h.args.kwonlyargs if a.arg not in ('self', 'cls')]
+                if not set(hp) - set(b):
+                    return sequence_elements(mod, _Subst(b).visit(copy.deepcopy(rv)), cls, depth + 1)
+    raise Undecided(f'table {short(e)} is not put together from displays, constants and single-return helpers')
+
+
+def lexer_single_chars(ctx: RuleCtx, mod: Module) -> T.Dict[str, str]:
+    """character -> token id of the single-character table; a per-instance copy (`dict(X)`, `X.copy()`, `{**X}`) is read through."""
+    e = _lexer_table(mod, 'single_char_tokens')
+    for _ in range(3):
+        if isinstance(e, ast.Call) and norm(e.func) == 'dict' and len(e.args) == 1 and not e.keywords:
+            e = e.args[0]
+        elif isinstance(e, ast.Call) and isinstance(e.func, ast.Attribute) and e.func.attr == 'copy' and not e.args:
+            e = e.func.value
+        elif isinstance(e, ast.Dict) and len(e.keys) == 1 and e.keys[0] is None:
+            e = e.values[0]
+    v = fold_expr(ctx.repo, mod, e)
+    if not isinstance(v, dict):
+        raise Undecided('Lexer.single_char_tokens does not fold to a mapping')
+    return v
+
+
+def lexer_token_spec(mod: Module) -> T.Dict[str, ast.AST]:
+    """token id -> the expression of its pattern, for the ordered (id, pattern) table of the lexer."""
+    out: T.Dict[str, ast.AST] = {}
+    for el in sequence_elements(mod, _lexer_table(mod, 'token_specification'), 'Lexer'):
+        if not (isinstance(el, ast.Tuple) and len(el.elts) == 2 and isinstance(el.elts[0], ast.Constant) and isinstance(el.elts[0].value, str)):
+            raise Undecided(f'Lexer.token_specification: entry {short(el)} is not a (token id, pattern) pair')
+        if el.elts[0].value in out:
+            raise Undecided(f'Lexer.token_specification lists the token {el.elts[0].value!r} twice')
+        out[el.elts[0].value] = el.elts[1]
+    return out
 
 
 def lexer_line_model(ctx: RuleCtx) -> T.Tuple[T.Set[str], int, int, T.List[str]]:
@@ -437,10 +744,8 @@ def _trigger_chars(ctx: RuleCtx, mod: Module, fn: ast.AST, guard: ast.If, inc: a
     if not tids:
         raise Undecided(f'Lexer.lex: line counter moves under `{short(test)}`')
     out: T.Set[str] = set()
-    single = fold_expr(ctx.repo, mod, _lexer_table(mod, 'single_char_tokens'))
-    spec = _lexer_table(mod, 'token_specification')
-    spec_names = {el.elts[0].value: el.elts[1] for el in spec.elts  # type: ignore[attr-defined]
-                  if isinstance(el, ast.Tuple) and len(el.elts) == 2 and isinstance(el.elts[0], ast.Constant)} if isinstance(spec, ast.List) else {}
+    single = lexer_single_chars(ctx, mod)
+    spec_names = lexer_token_spec(mod)
     for tid in tids:
         chars = {k for k, v in single.items() if v == tid}
         if chars:
@@ -1121,7 +1426,7 @@ def _facts_on_edges(test: ast.AST) -> T.List[T.Tuple[ast.AST, bool, bool]]:
     return out
 
 
-def _guarded_by(cfg: CFG, target: Node, is_guard: T.Callable[[ast.AST], T.Optional[bool]]) -> bool:
+def _guarded_by(cfg: CFG, target: Node, is_guard: T.Callable[[ast.AST], T.Optional[bool]], unread: T.Optional[T.List[str]] = None) -> bool:
     """Every path entry -> target leaves some test through an edge on which the guard atom has the wanted truth value
     (or passes an `assert` of it).  is_guard(atom) -> wanted truth value, or None when the atom is not the guard."""
     pass_edges: T.Set[T.Tuple[int, T.Any]] = set()
@@ -1131,13 +1436,17 @@ def _guarded_by(cfg: CFG, target: Node, is_guard: T.Callable[[ast.AST], T.Option
     defs_of: T.Dict[str, T.List[ast.stmt]] = {}
     for n_ in ast.walk(cfg.fn):
         if isinstance(n_, (ast.Assign, ast.AugAssign, ast.AnnAssign, ast.For, ast.With)):
-            for x_ in ast.walk(n_):
+            # what the statement itself binds (not what the statements nested in a loop / with body bind)
+            heads_ = [n_.target] if isinstance(n_, ast.For) else [i_.optional_vars for i_ in n_.items if i_.optional_vars is not None] if isinstance(n_, ast.With) else [n_]
+            for x_ in [y_ for h_ in heads_ for y_ in ast.walk(h_)]:
                 if isinstance(x_, ast.Name) and isinstance(x_.ctx, ast.Store):
                     defs_of.setdefault(x_.id, []).append(n_)  # type: ignore[arg-type]
 
     def readable(local: str, test_node: Node) -> T.Optional[ast.AST]:
         ds = defs_of.get(local, [])
         if len(ds) != 1 or not isinstance(ds[0], (ast.Assign, ast.AnnAssign)) or ds[0].value is None:
+            return None
+        if not isinstance(ds[0].targets[0] if isinstance(ds[0], ast.Assign) and len(ds[0].targets) == 1 else getattr(ds[0], 'target', None), ast.Name):
             return None
         v = ds[0].value
         if not isinstance(v, (ast.Compare, ast.BoolOp, ast.UnaryOp, ast.Call)):
@@ -1146,17 +1455,30 @@ def _guarded_by(cfg: CFG, target: Node, is_guard: T.Callable[[ast.AST], T.Option
         for x_ in ast.walk(v):
             if isinstance(x_, ast.Name):
                 for s_ in defs_of.get(x_.id, []):
-                    if any(cfg.can_reach(d_, sn_) and cfg.can_reach(sn_, test_node) for d_ in dn for sn_ in cfg.stmt_nodes(s_)):
+                    if s_ is ds[0]:
+                        continue
+                    # a re-binding between the definition and the test (a way round a loop that runs the definition again does not count)
+                    if any(cfg.can_reach(d_, sn_, avoid=dn) and cfg.can_reach(sn_, test_node, avoid=dn) for d_ in dn for sn_ in cfg.stmt_nodes(s_) if sn_ not in dn):
                         return None
         return v
 
+    def bare_flags(t_: ast.AST) -> T.Set[str]:
+        # names the test reads for their truth value: `if flag`, `if not flag and ...`
+        t_, _ = _strip_not(t_)
+        if isinstance(t_, ast.BoolOp):
+            return set().union(*[bare_flags(v_) for v_ in t_.values])
+        return {t_.id} if isinstance(t_, ast.Name) else set()
+
     def through_locals(test: ast.AST, test_node: Node) -> ast.AST:
         env_ = {}
+        flags_ = bare_flags(test)
         for x_ in ast.walk(test):
-            if isinstance(x_, ast.Name) and isinstance(x_.ctx, ast.Load):
+            if isinstance(x_, ast.Name) and isinstance(x_.ctx, ast.Load) and x_.id in flags_:
                 r_ = readable(x_.id, test_node)
                 if r_ is not None:
                     env_[x_.id] = r_
+                elif unread is not None and x_.id in defs_of and cfg.can_reach(test_node, target):
+                    unread.append(x_.id)        # a flag the test reads but this rule cannot read through
         return _Subst(env_).visit(copy.deepcopy(test)) if env_ else test
     for n in cfg.nodes:
         if n.kind == 'test':
@@ -1357,7 +1679,9 @@ def r4(ctx: RuleCtx) -> None:
     n_mod = n_sort = 0
     for rel in rels:
         m = ctx.repo.module(rel)
-        for qn, fn in m.funcs().items():
+        for qn, fn0 in m.funcs().items():
+            # read in normal form: effect helpers (`_append_once(lst, n)`, `self._mark(n)`) inlined, loops over constant tuples unrolled
+            fn = nf_func(m, qn)
             own = [st for st, _ in _list_writers(fn, lambda e: (attr_chain(e) or '').endswith('.modified_nodes'))
                    if m.enclosing_func(st) == qn]
             if not own:
@@ -1383,10 +1707,24 @@ def r4(ctx: RuleCtx) -> None:
                         if isinstance(a.ops[0], ast.In):
                             return False
                     return None
-                if not all(_guarded_by(cfg, nd, not_in) for nd in nodes):
-                    opaque = _opaque_tests(cfg, nodes, {var, lst.rsplit('.', 1)[-1]})
+                unread: T.List[str] = []
+                if not all(_guarded_by(cfg, nd, not_in, unread) for nd in nodes):
+                    words = {var, lst.rsplit('.', 1)[-1]}
+                    opaque = _opaque_tests(cfg, nodes, words)
                     if opaque:
                         raise Undecided(f'{qn}: whether `{var}` is already recorded may be decided by `{short(opaque[0])}`, which the rule cannot read')
+                    lword = {lst.rsplit('.', 1)[-1]}
+                    for flag in unread:
+                        for d_ in ast.walk(fn):
+                            if not (isinstance(d_, (ast.Assign, ast.AnnAssign, ast.AugAssign)) and d_.value is not None
+                                    and any(isinstance(x_, ast.Name) and x_.id == flag and isinstance(x_.ctx, ast.Store) for x_ in ast.walk(d_))):
+                                continue
+                            read_ = {y.id for y in ast.walk(d_.value) if isinstance(y, ast.Name)} | {y.attr for y in ast.walk(d_.value) if isinstance(y, ast.Attribute)}
+                            helper_ = any(isinstance(c_, ast.Call) and (attr_chain(c_.func) or '').split('.')[-1] not in PURE_CALLS and var in {y.id for y in ast.walk(c_) if isinstance(y, ast.Name)}
+                                          for c_ in ast.walk(d_.value))
+                            # the flag is computed from the list, or by a helper that receives the node: it may be the membership test
+                            if lword & read_ or helper_:
+                                raise Undecided(f'{qn}: whether `{var}` is already recorded may be decided by the flag `{flag}` (`{short(d_)}`), which the rule cannot read through')
                 ctx.require(all(_guarded_by(cfg, nd, not_in) for nd in nodes), f'{qn}: `{var}` is recorded at most once (guarded by `{var} not in {lst}`)', m, qn, st,
                             f'`{short(st)}` can run while `{var}` is already on the list: the node would be spliced twice, the second time at stale offsets', st)
                 _require_typed(ctx, m, qn, fn, cfg, var, st, nodes)
@@ -1394,7 +1732,7 @@ def r4(ctx: RuleCtx) -> None:
 
     # -- to_sort_nodes: only nodes whose argument list the command touched
     for qn in ('Rewriter.add_src_or_extra', 'Rewriter.rm_src_or_extra'):
-        fn = mod.func(qn)
+        fn = nf_func(mod, qn)
         lists = [a.arg for a in fn.args.args if a.annotation is not None and 'to_sort' in a.arg]
         if len(lists) != 1:
             raise Undecided(f'{qn}: to_sort list parameter not found')
@@ -1418,7 +1756,7 @@ def _r4_scope(ctx: RuleCtx, mod: Module) -> None:
     n = 0
     seen_sets: T.Set[T.Any] = set()
     for qn, dag_user in (('Rewriter.rm_src_or_extra', True), ('Rewriter.add_src_or_extra', True)):
-        outer = mod.func(qn)
+        outer = nf_func(mod, qn)
         scopes = [outer] + [f for f in ast.walk(outer) if isinstance(f, ast.FunctionDef) and f is not outer]
         for f in scopes:
             opv = [a.arg for a in outer.args.args][1]
@@ -1460,7 +1798,7 @@ def _r4_scope(ctx: RuleCtx, mod: Module) -> None:
 def _r4_sort(ctx: RuleCtx, mod: Module) -> None:
     """The sort loop keeps every argument, keeps the non-string ones (and the target name) in place and order."""
     qn = 'Rewriter.process_target'
-    fn = mod.func(qn)
+    fn = nf_func(mod, qn)
     callers = [c for c in ast.walk(fn) if isinstance(c, ast.Call) and (attr_chain(c.func) or '').endswith(('add_src_or_extra', 'rm_src_or_extra'))]
     lists = {norm(c.args[-1]) for c in callers if c.args}
     if len(lists) != 1:
@@ -1564,7 +1902,7 @@ def _r4_guards(ctx: RuleCtx, mod: Module) -> None:
 
     # removal
     qn = 'Rewriter.rm_src_or_extra'
-    fn = mod.func(qn)
+    fn = nf_func(mod, qn)
     removes = [c for c in walk_no_nested(fn) if isinstance(c, ast.Call) and isinstance(c.func, ast.Attribute) and c.func.attr in ('remove', 'pop')
                and (attr_chain(c.func.value) or '').endswith('.arguments')]
     if len(removes) != 1 or len(removes[0].args) != 1:
@@ -1599,7 +1937,7 @@ def _r4_guards(ctx: RuleCtx, mod: Module) -> None:
 
     # candidate choice
     qn = 'Rewriter.add_src_or_extra'
-    fn = mod.func(qn)
+    fn = nf_func(mod, qn)
     cfg = CFG(fn)
     picks = [st for st in walk_no_nested(fn) if isinstance(st, ast.Assign) and isinstance(st.value, ast.Call) and norm(st.value.func) in ('min', 'max', 'next', 'sorted')
              and st.value.args and isinstance(st.value.args[0], ast.Name)]
@@ -1625,6 +1963,23 @@ def _r4_guards(ctx: RuleCtx, mod: Module) -> None:
                     return True
         return False
 
+    closures = {n.name for n in ast.walk(fn) if isinstance(n, ast.FunctionDef) and n is not fn} | {k for k, ds in ldefs.items() if any(isinstance(d.value, ast.Lambda) for d in ds)}
+
+    def may_hide_guard(e: ast.AST) -> bool:
+        """A call of code of this module (method of the class, module function, closure, local lambda) other than the guard itself:
+        the guard could be applied inside it, out of this rule's sight."""
+        for c in ast.walk(e):
+            if not isinstance(c, ast.Call):
+                continue
+            cn = attr_chain(c.func) or ''
+            parts = cn.split('.')
+            if parts[-1] == gname:
+                continue
+            if not cn or (len(parts) == 1 and (parts[0] in closures or mod.has_func(parts[0]))) \
+                    or (len(parts) == 2 and parts[0] in ('self', 'cls') and mod.has_func(f'Rewriter.{parts[1]}')):
+                return True
+        return False
+
     def classify(v: ast.AST, via: T.List[ast.Assign], depth: int = 0) -> str:
         """guard: only elements that passed the guard; filter: a subset of the candidate set as it was; source: elements from
         somewhere else, unguarded; unknown."""
@@ -1636,7 +1991,10 @@ def _r4_guards(ctx: RuleCtx, mod: Module) -> None:
             ds = ldefs.get(v.id, [])
             if len(ds) == 1:
                 via.append(ds[0])
-                return classify(ds[0].value, via, depth + 1)
+                k_ = classify(ds[0].value, via, depth + 1)
+                if k_ == 'unknown' and isinstance(ds[0].value, ast.Call) and not mentions(ds[0].value) and not may_hide_guard(ds[0].value):
+                    return 'source'      # an alias of a set that comes from somewhere else (a foreign call that cannot apply the guard)
+                return k_
             return 'unknown'
         if isinstance(v, (ast.SetComp, ast.ListComp, ast.GeneratorExp)) and len(v.generators) == 1 and norm(v.elt) == norm(v.generators[0].target):
             x = norm(v.generators[0].target)
@@ -1650,7 +2008,7 @@ def _r4_guards(ctx: RuleCtx, mod: Module) -> None:
             if base in ('filter', 'guard'):
                 via.extend(sub)
                 return base
-            return 'unknown' if mentions(v.generators[0].iter) else 'source'     # elements taken from somewhere else
+            return 'unknown' if mentions(v.generators[0].iter) or may_hide_guard(v.generators[0].iter) else 'source'     # elements taken from somewhere else
         if isinstance(v, ast.Call) and norm(v.func) in ('set', 'list', 'sorted', 'frozenset', 'tuple') and len(v.args) == 1:
             return classify(v.args[0], via, depth + 1)
         if isinstance(v, ast.Call) and isinstance(v.func, ast.Attribute) and v.func.attr in ('copy', 'intersection', 'difference') :
